@@ -18,52 +18,52 @@ CHECKS = {
             "Trusts the harness's own RFC 9639 validator (cross-checked against claxon in C01); stream-level inputs limited to the atoms/coordinates of DESIGN 2.3.",
             "DESIGN.md 3 C02"),
     "C03": ("exploration",
-            "exhaustive dense product width x channels x sign-heavy atoms x lengths x block sizes x 3 deliveries x {ST, frame-level, MT 1..3 workers}; STREAMINFO compared with the harness's own LE serialisation hashed with an independent MD5",
-            "Every case of a dense product over the dimensions the MD5/count path depends on, each through three deliveries and five encoding modes; STREAMINFO must state the source format, the delivered count and the reference MD5, identically in all of them.",
+            "exhaustive dense product width x channels x sign-heavy atoms x lengths x block sizes x 6 deliveries (MemSource, integer / byte source without hint, hints rounded up / down to whole blocks, an empty fill before every block) x {ST, frame-level, MT 1..3 workers}; STREAMINFO compared with the harness's own LE serialisation hashed with an independent MD5",
+            "Every case of a dense product over the dimensions the MD5/count path depends on, each through six deliveries and five encoding modes; STREAMINFO must state the source format, the delivered count and the reference MD5, identically in all of them.",
             "MD5 from the md-5 crate over the harness's serialisation; the schedule quantifier for the hashing thread is covered by the loom harness of C05.",
             "DESIGN.md 3 C03"),
     "C05": ("model_checking",
-            "stateless model checking of the real par.rs under loom (DPOR, preemption bound 2/3, every scenario in its own process) + explicit-state exploration of a protocol model with stateright, bound to the code by replaying every loom execution's event log through the model; breadth over inputs with real threads",
+            "stateless model checking of the real par.rs under loom (DPOR, preemption bound 2/3, every scenario in its own process) + explicit-state exploration of a protocol model with stateright, bound to the code by replaying every loom execution's event log through the model (scenarios incl. short reads in the middle of the input, empty fills, shrunk hashing queue); breadth over inputs with real threads (U_1/U_2, long streams, the empty input and one-block inputs through six deliveries, environment overrides)",
             "Every interleaving (up to the preemption bound) of the feeding, encoding and hashing threads of the real implementation is executed for a grid of worker counts, environment overrides, frame counts and deliveries, and its bytes compared with the single-thread stream and the frame-level assembly; a protocol model explored exhaustively extends the schedule quantifier to more workers/frames, and is validated against the implementation trace by trace.",
             "loom models std::sync/std::thread; the bounded-channel stand-in models crossbeam-channel; loom limited to 3 workers; the crate's thread-local scratch is loom::thread_local storage in the loom build (per modelled thread, hook 82b277e), call-history dependence across calls is C10's subject; the real-thread breadth part samples one OS schedule per encode and is supplementary.",
             "DESIGN.md 3 C05"),
     "C06": ("model_checking",
-            "stateless model checking of the real par.rs under loom with scripted source faults (read error at every position, out-of-range sample in every block, pairs) + explicit-state exploration of the protocol model under the same fault scripts (stateright), traces replayed through the model",
+            "stateless model checking of the real par.rs under loom with scripted source faults (read error at every position, out-of-range sample in every block, pairs; also after a short last block and after a short read in the middle of the input) + explicit-state exploration of the protocol model under the same fault scripts (stateright), traces replayed through the model",
             "For every fault script and every interleaving up to the preemption bound the call must return the single-thread error kind, with no panic in any thread, no thread alive at return and no deadlock; the model adds deadlock freedom and termination for more workers/frames with unbounded preemptions.",
             "Same trusted base as C05; faults limited to the two kinds the statement names; a loom deadlock report aborts the child process and is classified from its panic journal.",
             "DESIGN.md 3 C06"),
     "C07": ("exploration",
-            "exhaustive enumeration of all single- and two-field deviations of the configuration from three valid base points over boundary/extreme value grids; reference predicate written from the documented ranges; accepted configurations run on a probe corpus",
+            "exhaustive enumeration of all single- and two-field deviations of the configuration from three valid base points over boundary/extreme value grids; reference predicate written from the documented ranges; accepted configurations run on a probe corpus; the default configuration at every block size up to 1100 and around every block-size code class (thorough: every block size 32..=32767)",
             "into_verified().is_ok() is compared with a documented-range predicate for ~10^4 configurations (every 1- and 2-field deviation), and every accepted in-range configuration must encode 7-8 probe inputs without panic and losslessly (two decoders).",
             "Ranges taken from the statement and the doc comments; probe inputs are the six universe base inputs plus two shapes; built without the experimental feature (thorough: also with it); worker counts {None,1,2,3,300,2^32+1,usize::MAX}, the ones above 1024 probed in a child process because an allocation failure aborts.",
             "DESIGN.md 3 C07"),
     "C10": ("exploration",
-            "exhaustive enumeration of all call sequences of length <= 2 (quick) / <= 3 (thorough) over an alphabet of ~25 calls, each sequence on one fresh thread; call-by-call bytes compared with the same call alone on a fresh thread",
+            "exhaustive enumeration of all call sequences of length <= 3 over an alphabet of 49 calls (thorough: also length 4 over a reduced alphabet), each sequence on one fresh thread; call-by-call bytes compared with the same call alone on a fresh thread; every unordered pair of calls made concurrently on two fresh threads",
             "Every sequence over the call alphabet up to the stated depth is executed on a newly spawned thread and each call must reproduce the bytes of the same call made alone on a fresh thread; the alphabet is chosen from the thread-local scratch buffers and caches visible in the code.",
-            "History effects that need a call outside the alphabet, or more than 3 calls, are out of reach; other threads' influence is covered only through the multi-thread call of the alphabet (no shared mutable globals exist in the crate).",
+            "History effects that need a call outside the alphabet, or more than 3 (4) calls, are out of reach; the concurrent pairs observe one OS schedule each (no shared mutable globals exist in the crate).",
             "DESIGN.md 3 C10"),
     "C11": ("exploration",
-            "exhaustive enumeration of sink operation sequences: every start offset 0..=63 x every op x every op (depth 2; depth 3 on a reduced alphabet) over ~2.4k ops incl. every width n in 0..=BITS, against an ideal MSB-first bit string; user-defined minimal sink vs ByteSink over a corpus",
+            "exhaustive enumeration of sink operation sequences (user-sink comparisons preceded by a refused write): every start offset 0..=63 x every op x every op (depth 2; depth 3 on a reduced alphabet) over ~2.4k ops incl. every width n in 0..=BITS, against an ideal MSB-first bit string; user-defined minimal sink vs ByteSink over a corpus",
             "Both in-memory sinks are compared with an ideal bit string after every step of every operation sequence up to depth 2 (3) from every bit offset, and a sink implementing only the required methods must receive the same bits as ByteSink for every component of a corpus.",
             "Operand values limited to 3 (quick) / 7 (thorough) patterns per type; the model is the harness's own bit string.",
             "DESIGN.md 3 C11"),
     "C12": ("fault_enumeration",
-            "fault enumeration: a user sink failing on its k-th operation for EVERY k, three sink flavours, over streams / frames / headers / subframes / residuals / metadata",
+            "fault enumeration: a user sink failing on its k-th operation for EVERY k, four sink flavours (permanent / transient, all methods / required methods only), over streams / frames / headers / subframes / residuals (one and several Rice partitions) / metadata, incl. a 24 KiB frame",
             "For every target and flavour the number of sink operations N of a full write is measured and the write is repeated with the sink failing at operation k for every k < N: the result must be Err(OutputError::Sink), without panic, and the accepted bits a prefix of the reference bit string.",
-            "Targets limited to five small streams and their components.",
+            "Targets limited to nine streams and their components (+ the single-coordinate deviations of the base points with small blocks).",
             "DESIGN.md 3 C12"),
     "C14": ("exploration",
-            "exhaustive enumeration of channels 1..=8 x width/bytes-per-sample x capacity x every fill length 0..=capacity (after a full fill) x value patterns; int path vs byte path compared at buffer, context, frame and stream level",
+            "exhaustive enumeration of channels 1..=8 x width/bytes-per-sample x capacity x every fill length 0..=capacity (after a full fill) x value patterns; int path vs byte path compared at buffer, context, frame and stream level; plus every fill sequence of length <= 3 (thorough 4) on the (FrameBuf, Context) pair over 7 block lengths x every assignment of the two deliveries to the steps x at most one FrameBuf::resize, judged step by step against a reference model",
             "Every fill length for every channel count and bytes-per-sample is delivered both as integers and as packed bytes; frame buffer contents, context digest/count/frame number, the verbatim-coded frame and whole streams (ST, MT, frame-level) must be identical, and equal to the input.",
             "FrameBuf contents are read through its Debug rendering (the only public view); 4 capacities; 3 value patterns.",
             "DESIGN.md 3 C14"),
     "C16": ("fault_enumeration",
-            "fault enumeration: every non-zero XOR mask on every frame byte, every burst of width 2..=8 at every bit offset, truncation after every byte, every value of 1 (and 2) bytes at grammar cut points, checksum-consistent substitutions of header/body bytes, every STREAMINFO width code x channel code with the frame headers deferring to STREAMINFO (checksums recomputed), over a corpus of small emitted streams; plus a fixed list of pseudo-random inputs",
+            "fault enumeration: every non-zero XOR mask on every frame byte, every burst of width 2..=8 at every bit offset, truncation after every byte, every value of 1 (and 2) bytes at grammar cut points, checksum-consistent substitutions of header/body bytes, the complete code space of header bytes 2-3 x first number bytes with the CRC-8 forged at every admissible header length, every 3-byte input (2^24) to parser::subframe for the block sizes x widths the stream parser can pass, every STREAMINFO width code x channel code with the frame headers deferring to STREAMINFO (checksums recomputed), over a corpus of small emitted streams; plus a fixed list of pseudo-random inputs",
             "Every alteration of at most 8 contiguous bits inside a frame of each corpus stream is parsed: the parser must not panic and must either reject the stream or return identical audio; truncations, substitutions and a fixed list of arbitrary inputs must not panic.",
             "Corpus of 12 (quick) / 20 (thorough) streams of 100-700 bytes; allocation failure and hangs are watched by the runner's watchdog.",
             "DESIGN.md 3 C16"),
     "C17": ("exploration",
-            "exhaustive enumeration of every public entry point of the encoding API x every argument over a boundary / wrap-around grid (others valid), incl. out-of-width samples at each block position, byte fills with every bytes-per-sample against every declared width and fills of every length around the capacity; domain predicate from the statement",
+            "exhaustive enumeration of every public entry point of the encoding API x every argument over a boundary / wrap-around grid (others valid), incl. out-of-width samples at each block position, byte fills with every bytes-per-sample against every declared width (and with values no format has: 0, 5.., wrap-around values) and fills of every length around the capacity; domain predicate from the statement",
             "Every argument class the statement lists as outside the supported domain must give Err (not Ok, not a panic, not a hang) on every entry point, single- and multi-thread; plainly valid arguments must give Ok; unclassified arguments are executed and recorded but not judged.",
             "Domain predicate written from the statement; every width other than 8/12/16/20/24 counts as unsupported; block sizes also reach the frame-level entry point through FrameBuf::resize; rate 0, fills that are not a multiple of the channel count and StreamInfo/FrameBuf channel disagreement are recorded only.",
             "DESIGN.md 3 C17"),
@@ -73,22 +73,22 @@ CHECKS = {
             "Setters that return no Result (set_total_samples) are outside the statement and not probed beyond their field width; StreamInfo::new / Stream::new are probed both as returned and after their setters.",
             "DESIGN.md 3 C18"),
     "C19": ("exploration",
-            "exhaustive enumeration: TOML round trip over every 1- and 2-field deviation of the configuration; documents written by the harness with every subset (thorough: all 2^19) of the 19 leaf keys omitted, compared with a documented-defaults table",
+            "exhaustive enumeration: TOML round trip over every 1- and 2-field deviation of the configuration; documents written by the harness with every subset (thorough: all 2^19) of the 19 leaf keys omitted, compared with a documented-defaults table; the document written from the Verified wrapper parses to the same value and no rejected document parses as Verified<Encoder>",
             "Round trip equality, default substitution for exactly the omitted leaves and agreement of verify() with the documented ranges are checked for ~9k values and for every omission subset of the 19 leaf keys (quick: subsets of size <= 3 or co-size <= 2).",
             "Values TOML cannot carry (NaN, integers >= 2^63) excluded; documents in which an enum's tag is omitted omit the whole enum (partitions / alpha can be omitted while the tag is present); defaults table written from the doc comments (multithread default true: built with feature par).",
             "DESIGN.md 3 C19"),
     "C08": ("exploration",
-            "exhaustive enumeration of every component of every stream of U_2/U_3 + G9 (encoder- and parser-produced, before/after precompute) and of constructor grids incl. the 2^32 quotient-sum switch; count_bits compared with three sinks",
+            "exhaustive enumeration of every component of every stream of U_2/U_3 + G9 (encoder- and parser-produced, before/after precompute) and of constructor grids incl. the 2^32 quotient-sum switch and entries in warm-up positions; count_bits compared with three sinks",
             "count_bits() is compared with the bits received by MemSink<u8>, MemSink<u64> and a counting sink for every component reachable through public accessors, and for public constructors over grids that straddle every counting shortcut in the code.",
             "Residuals above 2^29 bits are written into the counting sink only.",
             "DESIGN.md 3 C08"),
     "C15": ("exploration",
-            "exhaustive enumeration of every stream/frame/subframe of U_2/U_3 + GH/GS through the crate's parser: consumed length, verify, byte-identical re-serialisation, decode == input; constructed frames over every header code class",
+            "exhaustive enumeration of every stream/frame/subframe of U_2/U_3 + GH/GS through the crate's parser: consumed length, verify, byte-identical re-serialisation, decode == input (each serialisation follows refused header / frame writes on the same thread); constructed frames over every header code class",
             "Every stream, frame and subframe the library serialises in the declared universe is parsed back, verified, re-serialised and decoded; plus frames built with public constructors over every block-size / sample-rate / channel-assignment class and frame-number length.",
             "Inputs limited to the declared universe; decode compared with the harness's own input blocks.",
             "DESIGN.md 3 C15"),
     "C04": ("exploration",
-            "exhaustive enumeration of every input length (0..=3*bs for small block sizes, every residue for large ones) x content x width x mode; STREAMINFO bounds compared with frames parsed by a reference decoder",
+            "exhaustive enumeration of every input length (0..=3*bs for small block sizes, every residue for large ones) x content x width x mode x every class of header rate code x six deliveries; STREAMINFO bounds compared with frames parsed by a reference decoder",
             "Complete over input length for the listed block sizes: every stream is parsed by the RFC 9639 reference parser and by claxon; bounds must be valid (>=16, <= non-final frames, == requested max) and frame-size fields exact.",
             "Content limited to three atoms x two channel counts x three widths; default configuration (the universe checks C01/C02 cover configurations).",
             "DESIGN.md 3 C04"),
